@@ -63,9 +63,9 @@ def run(ctx):
         else:
             ctx.run_shards(b, TEST, 1, 900, "c12")
     else:
-        ctx.run_shards(b, TEST, 16, 600 if ctx.tier == "quick" else 3000, "c12")
+        driver.run_scaled(ctx, b, TEST, 16, 3000, "c12")
         run_bombs(ctx, b, list(BOMBS))
-        if ctx.tier == "thorough":
+        if True:  # the race/checkptr pass over the small case list runs in both tiers
             br = ctx.build(PKG, race=True)
             ctx.run_shards(br, TEST, 16, 3000, "c12race", extra_env={"VERIF_TIER": "quick"}, race=True)
     return driver.finish(
